@@ -159,16 +159,69 @@ def norm_skel(sk, self_name=None):
     return out
 
 
+def _is_u64_cast_of_literal(F, e, helper, depth=0):
+    """`x as u64` (FloatToInt), possibly wrapped in refs / Ok payloads / `?`, or returned by a helper private to the fork"""
+    for _ in range(8):
+        if e[0] == "ref":
+            e = e[1]
+        elif e[0] == "place":
+            e = e[1]
+        elif e[0] == "call" and e[1].endswith("::branch") and e[2]:
+            e = e[2][0]
+        else:
+            break
+    if e[0] == "cast" and e[1] == "FloatToInt" and e[3] == "u64":
+        return True
+    if e[0] == "call" and e[1] in F.bodies and helper(e[1]) and depth < 2:
+        hb = F.bodies[e[1]]
+        for (bb, i, pl, rv, sp) in hb.assigns():
+            x = hb.rv_expr(rv)
+            if x[0] == "cast" and x[1] == "FloatToInt" and x[3] == "u64":
+                return True
+    return False
+
+
+def one_fork_helper(F):
+    """predicate: the function is a parsing/evaluation helper that exists in one of the two forks only"""
+    ev_names = {RENAME.get(x, x) for x in fork_methods(F, EV_E) | fork_methods(F, EV_S)}
+    an_names = {RENAME.get(x, x) for x in fork_methods(F, AN_E) | fork_methods(F, AN_S)}
+    common = ev_names & an_names
+
+    def pred(path):
+        if not any(path.startswith(o + "::") for o in (EV_E, EV_S, AN_E, AN_S)):
+            return False
+        nm = path.rsplit("::", 1)[1]
+        return RENAME.get(nm, nm) not in common
+    return pred
+
+
+def fork_methods(F, owner):
+    return {p.rsplit("::", 1)[1] for p in F.bodies if p.startswith(owner + "::") and "{closure" not in p and p.count("::") == owner.count("::") + 1}
+
+
 def skeletons(ck, F):
     n = 0
+    # a parsing function that exists in one fork only (a helper extracted there, or the counterpart of a function the other
+    # fork has inlined) is expanded in place before the skeletons are compared: the forks must consume tokens identically,
+    # however each of them is cut into functions
+    ev_names = {RENAME.get(x, x) for x in fork_methods(F, EV_E) | fork_methods(F, EV_S)}
+    an_names = {RENAME.get(x, x) for x in fork_methods(F, AN_E) | fork_methods(F, AN_S)}
+    common = ev_names & an_names
+
+    def inline(path):
+        nm = path.rsplit("::", 1)[1]
+        return RENAME.get(nm, nm) not in common
     for fn in EXPR_PAIRS:
         a = F.bodies.get(EV_E + "::" + fn)
         b = F.bodies.get(AN_E + "::" + fn)
-        if a is None or b is None:
-            ck.missing("C06:SKEL:%s" % fn, "%s in both forks" % fn)
+        if a is None and b is None:
+            ck.missing("C06:SKEL:%s" % fn, "%s in either fork" % fn)
             continue
+        if a is None or b is None:
+            continue    # inlined into its callers in one fork: compared through them
         n += 1
-        sa, sb = norm_skel(grammar.skeleton(a, F=F, distinct=True), fn), norm_skel(grammar.skeleton(b, F=F, distinct=True), fn)
+        sa, sb = norm_skel(grammar.skeleton(a, F=F, distinct=True, inline=inline), fn), \
+            norm_skel(grammar.skeleton(b, F=F, distinct=True, inline=inline), fn)
         ck.require(sa == sb, "C06:SKEL:%s" % fn, "skeleton agreement", "%d cursor/parse steps, identical" % len(sa),
                    "the analyzer's %s consumes tokens differently from the interpreter's:\n    interpreter: %s\n    analyzer:    %s"
                    % (fn, sa, sb), b.span)
@@ -176,11 +229,14 @@ def skeletons(ck, F):
     for (fe, fa) in STMT_PAIRS:
         a = F.bodies.get(EV_S + "::" + fe)
         b = F.bodies.get(AN_S + "::" + fa)
-        if a is None or b is None:
+        if a is None and b is None:
             ck.missing("C06:SKEL:%s" % fe, "%s / %s" % (fe, fa))
             continue
+        if a is None or b is None:
+            continue
         n += 1
-        sa, sb = norm_skel(grammar.skeleton(a, peers, F=F, distinct=True)), norm_skel(grammar.skeleton(b, peers, F=F, distinct=True))
+        sa, sb = norm_skel(grammar.skeleton(a, peers, F=F, distinct=True, inline=inline)), \
+            norm_skel(grammar.skeleton(b, peers, F=F, distinct=True, inline=inline))
         # `ExpressionEvaluator::new(..).evaluate_array_index()` vs `self.expression_analyser().evaluate_array_index()`
         ck.require(sa == sb, "C06:SKEL:%s" % fe, "skeleton agreement", "%d cursor/parse steps, identical" % len(sa),
                    "the analyzer's %s consumes tokens differently from the interpreter's %s:\n    interpreter: %s\n    analyzer:    %s"
@@ -190,10 +246,10 @@ def skeletons(ck, F):
     b = F.bodies.get(AN_S + "::evaluate_statement_or_goto_line_number")
     if a is not None and b is not None:
         n += 1
-        sa, sb = norm_skel(grammar.skeleton(a, F=F, distinct=True)), norm_skel(grammar.skeleton(b, F=F, distinct=True))
+        sa, sb = norm_skel(grammar.skeleton(a, F=F, distinct=True, inline=inline)), norm_skel(grammar.skeleton(b, F=F, distinct=True, inline=inline))
         ck.require(sa == sb, "C06:SKEL:evaluate_statement_or_goto_line_number", "skeleton agreement", "identical",
                    "statement_or_goto_line_number differs: %s vs %s" % (sa, sb), b.span)
-    ck.floor("C06.function pairs compared", n, 24)
+    ck.floor("C06.function pairs compared", n, 16)
 
 
 # ------------------------------------------------------------------------------------- 3
@@ -331,6 +387,8 @@ def statement_checks(ck, F):
                 ok = True
         ck.require(ok, "C06:SUFFIX:%s" % fn, "name-suffix predicate", "%s decides by ends_with('$')" % fn,
                    "%s no longer derives the kind from the `$` suffix" % fn, b.span)
+    from lib import deep_calls
+    helper = one_fork_helper(F)
     pairs = [
         ("assignment", AN_S + "::assign_value", ("ValueType::check",), EV_S + "::assign_value", ("Variables::set", "Arrays::set_value_at_index")),
         ("FOR bounds", AN_S + "::evaluate_for_statement", ("ValueType::check_number",), EV_S + "::evaluate_for_statement", ("try_from",)),
@@ -346,8 +404,8 @@ def statement_checks(ck, F):
         if a is None or e is None:
             ck.missing("C06:STMT:%s" % what, "%s / %s" % (af, ef))
             continue
-        a_has = any(any(sfx(c.callee, x) for x in achk) for c in a.calls())
-        e_calls = [c.callee for c in e.calls()]
+        a_has = any(any(sfx(c.callee, x) for x in achk) for (_ob, c) in deep_calls(F, a, helper))
+        e_calls = [c.callee for (_ob, c) in deep_calls(F, e, helper)]
         e_has = any(any(sfx(c, x) or c.endswith("::" + x) for x in echk) for c in e_calls) or \
             any(any(ag[1] == x for x in echk) for ag in region_aggregates(e, e.reachable()))
         ck.require(a_has == e_has and a_has, "C06:STMT:%s" % what, "paired kind checks",
@@ -358,8 +416,8 @@ def statement_checks(ck, F):
     a = F.bodies.get(AN_S + "::evaluate_for_statement")
     e = F.bodies.get(EV_S + "::evaluate_for_statement")
     if a is not None and e is not None:
-        na = sum(1 for c in a.calls() if sfx(c.callee, "ValueType::check_number"))
-        ne = sum(1 for c in e.calls() if "TryFrom<abasic_core::value::Value> for f64" in c.callee)
+        na = sum(1 for (_ob, c) in deep_calls(F, a, helper) if sfx(c.callee, "ValueType::check_number"))
+        ne = sum(1 for (_ob, c) in deep_calls(F, e, helper) if "TryFrom<abasic_core::value::Value> for f64" in c.callee)
         ck.require(na == ne + 1 and ne == 3, "C06:STMT:FOR-count", "paired kind checks",
                    "3 numeric bounds on both sides (+ the variable's own kind in the analyzer)",
                    "FOR: analyzer performs %d numeric checks, interpreter %d conversions" % (na, ne), a.span)
@@ -427,23 +485,31 @@ def resolution_order(ck, F):
 # ------------------------------------------------------------------------------------- 5
 def jump_targets(ck, F):
     sites = []
-    for path, has_fn in ((EV_S + "::evaluate_goto_statement", "Program::goto_line_number"),
-                         (EV_S + "::evaluate_gosub_statement", "Program::gosub_line_number"),
-                         (AN_S + "::ensure_valid_line_number", "Program::has_line_number")):
+    from lib import deep_calls
+    helper = one_fork_helper(F)
+    for path, has_fn, key in ((EV_S + "::evaluate_goto_statement", "Program::goto_line_number", "evaluate_goto_statement"),
+                              (EV_S + "::evaluate_gosub_statement", "Program::gosub_line_number", "evaluate_gosub_statement"),
+                              (AN_S + "::evaluate_goto_or_gosub_statement", "Program::has_line_number", "ensure_valid_line_number")):
         b = F.bodies.get(path)
         if b is None:
-            ck.missing("C06:JUMP:%s" % path.split("::")[-1], path)
+            ck.missing("C06:JUMP:%s" % key, path)
             continue
-        cs = b.calls_to(has_fn)
         ok = False
-        for c in cs:
-            e = strip_expr(b.expr(c.args[1])) if False else b.expr(c.args[1])
-            # cast FloatToInt f64 -> u64
-            ee = e
-            while ee[0] in ("ref",):
-                ee = ee[1]
-            if ee[0] == "cast" and ee[1] == "FloatToInt" and ee[3] == "u64":
-                ok = True
+        # the lookup (and the conversion of the literal) may sit in the handler or in a helper private to this fork
+        for (ob, c) in deep_calls(F, b, helper):
+            if not sfx(c.callee, has_fn):
+                continue
+            cands = [ob.expr(c.args[1])]
+            # the converted value may be handed to / returned by the helper: follow one parameter or call level
+            e0 = strip_expr(cands[0])
+            if e0[0] == "param" and ob is not b:
+                for (ob2, c2) in deep_calls(F, b, helper):
+                    if c2.callee == ob.path and e0[1] < len(c2.args):
+                        cands.append(ob2.expr(c2.args[e0[1]]))
+            for e in cands:
+                if _is_u64_cast_of_literal(F, e, helper):
+                    ok = True
+        path = path if key != "ensure_valid_line_number" else AN_S + "::ensure_valid_line_number"
         ck.require(ok, "C06:JUMP:%s" % path.split("::")[-1], "jump targets",
                    "the literal is converted with `as u64` and looked up in the line store",
                    "%s no longer converts the target with `as u64` before the lookup" % path, b.span)
